@@ -30,10 +30,12 @@ func specWordCode(b byte) bool {
 //@ func Tokenize
 //@   callsite newToken requires[C11,C12] block-comment-ends-at-its-first-terminator: arg1 == COMMENT && hasPrefix(rest(), "/*") ==> strings.IndexFrom(rest(), "*/", 2) >= 2 && arg0 == rest()[2:strings.IndexFrom(rest(), "*/", 2)]
 //@   callsite newToken requires[C11,C12] line-comment-stops-at-the-line-break: arg1 == COMMENT && hasPrefix(rest(), "//") ==> (strings.Index(rest(), "\n") < 0 ==> arg0 == rest()[2:]) && (strings.Index(rest(), "\n") >= 0 ==> arg0 == rest()[2:strings.Index(rest(), "\n")])
+//@   callsite newToken requires[C11,C12] a-minus-after-an-operand-is-the-operator-not-a-sign: arg1 == NUMBER_LITERAL && hasPrefix(arg0, "-") ==> !endsOperand(tokens)
 //@   callsite newToken requires[C11] true-and-false-are-whole-words: arg1 == BOOL_LITERAL ==> (arg0 == "true" || arg0 == "false") && hasPrefix(rest(), arg0) && (len(arg0) == len(rest()) || !specWordCode(rest()[len(arg0)]))
-//@   callsite newToken requires[C11] a-word-is-the-text-at-its-position: arg1 == IDENTIFIER || (arg1 != UNKNOWN && arg1 == specKeywordType(arg0)) ==> len(arg0) >= 1 && hasPrefix(rest(), arg0)
-//@   callsite newToken requires[C11] a-word-starts-with-a-letter-or-underscore: arg1 == IDENTIFIER || (arg1 != UNKNOWN && arg1 == specKeywordType(arg0)) ==> len(rest()) >= 1 && specWordCode(rest()[0]) && !(rest()[0] >= 48 && rest()[0] <= 57)
-//@   callsite newToken requires[C11] words-are-maximal: arg1 == IDENTIFIER || (arg1 != UNKNOWN && arg1 == specKeywordType(arg0)) ==> len(arg0) == len(rest()) || !specWordCode(rest()[len(arg0)])
+//@   callsite newToken requires[C11] a-word-is-the-text-at-its-position: arg0 == identifier && len(identifier) >= 1 && hasPrefix(rest(), identifier)
+//@   callsite newToken requires[C11] a-word-starts-with-a-letter-or-underscore: len(identifier) >= 0 && len(rest()) >= 1 && specWordCode(rest()[0]) && !(rest()[0] >= 48 && rest()[0] <= 57)
+//@   callsite newToken requires[C11] words-are-maximal: ogI + len(identifier) == len(src()) || !specWordCode(src()[ogI+len(identifier)])
+//@   callsite newToken requires[C11] a-reserved-word-gets-its-own-type-any-other-word-is-an-identifier: (specKeywordType(identifier) != UNKNOWN ==> arg1 == specKeywordType(identifier)) && (specKeywordType(identifier) == UNKNOWN ==> arg1 == IDENTIFIER)
 //@   loop @"for" invariant[C11] word-so-far: ogI <= i && i <= len(src()) && identifier == src()[ogI:i]
 //@   loop @"for i < sourceLength#1" invariant[C11,C12,C13] index-within-normalised-source: 0 <= i && i <= len(strings.ReplaceAll(source, "\r\n", "\n"))
 //@   loop @"for i < sourceLength#1" invariant[C11,C12] no-blank-or-comment-token: forall(k, 0, len(tokens), tokens[k].tokenType != SPACE && tokens[k].tokenType != COMMENT && tokens[k].tokenType != UNKNOWN)
